@@ -37,19 +37,21 @@
 //   KF-C17-3  Grid::wrap_assign, OVERFLOW_WRAPS (Grid_public.cc:3019-3021): a wrapped variable whose frequency is undefined
 //             (a line of the grid moves it) is skipped.  Class: grid, wraps, some wrapped variable moved by a line.
 //             Skips grid.wrap.contains and grid.wrap.rule_lower.
-//   KF-C17-4  Grid::wrap_assign, wraps/impossible (Grid_public.cc:3071-3080): when the value of the variable closest to zero is
-//             v_n/v_d with v_d != 1, the variable is set equal to v_n (the numerator).  Class: grid, wrapped variable with
-//             non-constant frequency f_n/f_d, non-integer closest-to-zero value, and f_n == 2^w or (impossible and 2 f_n >= 2^w).
-//             Skips grid.wrap.contains, grid.wrap.rule_lower, grid.wrap.rule_upper.
+//   KF-C17-4  Grid::wrap_assign, wraps/impossible (Grid_public.cc:3071-3080): when the value v_n/v_d that frequency_no_check()
+//             returns for the variable has v_d != 1, the variable is set equal to v_n (the numerator), which is not a value
+//             of the variable at all.  Class: grid, wrapped variable with non-constant frequency f_n/f_d taking some non-integer
+//             value, f_n == 2^w or (impossible and 2 f_n >= 2^w), and the result makes the variable a constant that is not an
+//             integer value of the variable in the argument.  Skips grid.wrap.contains, grid.wrap.rule_lower, grid.wrap.rule_upper.
 //   KF-C17-5  Grid::wrap_assign, wraps, signed (Grid_public.cc:3040-3048): an out-of-range constant v is replaced by the C remainder
 //             v % 2^w (in (-2^w, 2^w)), which is not reduced into [-2^(w-1), 2^(w-1)).  Class: grid, wraps, signed, wrapped
 //             variable constant, integer, out of range, with truncated remainder out of range.  Skips the three grid wrap checks.
 //   KF-C17-7  Grid::wrap_assign (Grid_public.cc:3071-3080): when f_n == 2^w, or overflow is impossible and 2 f_n >= 2^w, the
-//             variable is set equal to its value closest to zero, assuming it is the unique value in range; but (signed) the
-//             value +2^(w-1) is out of range (-2^(w-1) is the one in range), and with 2^(w-1) <= f_n < 2^w there can be two values
-//             in range (one is lost), with f_n > 2^w there can be none (the documented result is the empty grid).
-//             Class: that branch, integer closest value, and (number of in-range values != 1, or signed and |value| == f_n/2).
-//             Skips the three grid wrap checks.
+//             variable is set equal to the value v_n returned by frequency_no_check(), assumed to be "the value closest to 0"
+//             and the unique value in range.  But v_n is the C remainder of the generating point's value (any value in (-f,f)):
+//             for a signed type it can be out of range (x = -53 (mod 256) becomes x = 203); with 2^(w-1) <= f_n < 2^w there can be
+//             two values in range (one is lost); with f_n > 2^w there can be none (documented result: the empty grid).
+//             Class: that branch, integer values, and (number of in-range values != 1, or signed and the result holds an
+//             out-of-range constant congruent to the values of the argument).  Skips the three grid wrap checks.
 //   KF-C17-8  (precision, documentation mismatch) Grid::wrap_assign, undefined (Grid_public.cc:3107-3112): when the variable may
 //             take non-integer values the grid is `unconstrain(x); x = 0 (mod 1)' instead of the documented `add the parameter
 //             e_x': relations with the other variables are lost.  Class: grid, undefined, wrapped variable moved by a line or with
@@ -58,6 +60,15 @@
 //             satisfies x = a (mod 2^w)" is implemented as f_n == 2^w: with a frequency k*2^w, k >= 2, the parameter 2^w e_x is
 //             added instead of setting x to the constant a mod 2^w.  Class: grid, wraps, frequency an integer multiple >= 2 of 2^w.
 //             Skips grid.wrap.rule_upper only.
+//   KF-C17-10 (precision) Box::wrap_assign with a guard, undefined (Box_templates.hh:1866-1870): an interval not inside the range is
+//             assigned UNIVERSE (unbounded), whereas without a guard it is assigned the range of the type: giving a guard makes
+//             the result less precise and leaves the wrapped dimension outside the type.  Class: box, guard, undefined, some
+//             wrapped interval not inside [min, max+1).  Skips qbox/dbox.wrap.range.
+//   KF-C17-11 Grid::wrap_assign, wraps, two or more variables (Grid_public.cc:3019, 3064-3070): frequencies are read from a copy of the
+//             original grid while *this is modified; when the integrality congruence of a later variable empties *this, the
+//             following add_grid_generator(parameter) throws std::invalid_argument ("*this is an empty grid and g is not a point").
+//             Class: grid, wraps, |vars| >= 2, argument non-empty but without points integer on all wrapped dims, exception thrown.
+//             Skips the wrap checks of the case (check id grid.wrap.throws).
 //   KF-C17-6  Polyhedron::contains_integer_point (Polyhedron_public.cc:664-674): a strict inequality g*(a.x) + b > 0 whose
 //             homogeneous gcd g does not divide b is tightened with a truncating division (b/g rounded towards zero instead of
 //             down): for b < 0 an integer point is claimed that does not satisfy the constraint.
@@ -171,8 +182,10 @@ std::vector<RCon> gen_arg(Ctx& c, const Spec& s, int style, bool strict_ok) {
     if (len < 0) len = 0;
     int shape = t.weighted({70, 9, 9, 12});       // both bounds, lower only, upper only, none
     long den = t.weighted({75, 15, 10}) + 1;
+    bool tiny = t.chance(12);                      // a thin slice with fractional ends (integer-point existence is non-trivial)
+    if (tiny) { len = t.range(0, 1); den = t.range(2, 4); shape = 0; }
     centre[j] = lo + len / 2;
-    if (shape == 0 || shape == 1) { RCon rc; rc.e = LE(n); rc.e.a[j] = den; rc.e.b = -(lo * den + t.range(0, den - 1)); rc.kind = (strict_ok && t.chance(15)) ? 2 : 1; cons.push_back(rc); }
+    if (shape == 0 || shape == 1) { RCon rc; rc.e = LE(n); rc.e.a[j] = den; rc.e.b = -(lo * den + t.range(0, den - 1)); rc.kind = (strict_ok && t.chance(tiny ? 45 : 15)) ? 2 : 1; cons.push_back(rc); }
     if (shape == 0 || shape == 2) { RCon rc; rc.e = LE(n); rc.e.a[j] = -den; rc.e.b = (lo + len) * den + t.range(0, den - 1); rc.kind = (strict_ok && t.chance(15)) ? 2 : 1; cons.push_back(rc); }
   }
   if (n >= 2 && style != 3) {
@@ -407,6 +420,21 @@ void run_generic(Ctx& c, const std::string& dom, const Flags& F) {
           return "wrap_assign lost a point: argument point " + show_pt(p) + " requires " + show_pt(req[r]) + " in the result " + show_model(res) + "; argument " + show_model(model); });
       }
     }
+    // the wrapped dimensions of the result lie in the range of the type: mn <= x < mx + 1
+    bool skip_range = skip_contains;
+    if (F.is_box && s.has_guard && s.ov == 1) {       // KF-C17-10 class: some wrapped interval not inside [mn, mx+1)
+      bool cls = false;
+      if (!ref::is_empty(model[0])) for (size_t i = 0; i < s.V.size(); ++i) { Vec a(n, Q(0)); a[s.V[i]] = 1; Vec na(n, Q(0)); na[s.V[i]] = -1;
+        if (!ref::included_in_con(model[0], Con(a, Q(-s.mn), ref::GE)) || !ref::included_in_con(model[0], Con(na, Q(s.mx + 1), ref::GT))) cls = true; }
+      if (cls) { c.tag("class KF-C17-10"); if (vf::kf("KF-C17-10")) { c.excluded("KF-C17-10"); skip_range = true; } }
+    }
+    if (!skip_range) for (size_t k = 0; k < res.size(); ++k) {
+      if (ref::is_empty(res[k])) continue;
+      for (size_t i = 0; i < s.V.size(); ++i) { Vec a(n, Q(0)); a[s.V[i]] = 1; Vec na(n, Q(0)); na[s.V[i]] = -1;
+        bool ok = ref::included_in_con(res[k], Con(a, Q(-s.mn), ref::GE)) && ref::included_in_con(res[k], Con(na, Q(s.mx + 1), ref::GT));
+        c.check(dom + ".wrap.range", ok, [&] { return "wrapped dimension x" + std::to_string(s.V[i]) + " of the result is not within [" + pstr(s.mn) + ", " + pstr(s.mx) + "]: " + ref::show(res[k]) + "; argument " + show_model(model); });
+      }
+    }
   }
   if (checked > 0 && (qi.unbounded || qi.max_span >= 2 || s.has_guard || qi.combos > s.thr)) c.nt();
 
@@ -467,7 +495,8 @@ bool sat_cgs(const Congruence_System& cgs, const Vec& p) {
   return true;
 }
 // the documented rule for one variable j (definitions.dox, Grid_Wrapping_Operator)
-rl::Grid grid_rule(const rl::Grid& L, const Spec& s, size_t j) {
+// lenient: "x_j is set equal to a" read as `forget x_j, then x_j = a' also when overflow is impossible (otherwise: intersection)
+rl::Grid grid_rule(const rl::Grid& L, const Spec& s, size_t j, bool lenient) {
   if (L.empty) return L;
   const size_t n = L.n; rl::Vec e(n, rl::Q(0)); e[j] = 1; rl::Q v0, gq;
   bool noline = rl::value_set(L, e, rl::Q(0), v0, gq);
@@ -479,7 +508,7 @@ rl::Grid grid_rule(const rl::Grid& L, const Spec& s, size_t j) {
     // values v0 + k*gq in [rlo, rhi)
     Z k0 = ceil_q((rlo - v0) / gq); Q first = v0 + Q(k0) * gq;
     if (first >= rhi) return rl::Grid::make_empty(n);
-    if (first + gq >= rhi) { rl::Grid r(L); r.add_congruence(e, first, rl::Q(0)); return r; }
+    if (first + gq >= rhi) { rl::Grid r(L); if (lenient) r.affine_image(j, rl::Vec(n, rl::Q(0)), first, rl::Q(1)); else r.add_congruence(e, first, rl::Q(0)); return r; }
     return L;
   }
   if (s.ov == 1) { rl::Grid r(L); r.add_param(e); return r; }
@@ -501,6 +530,7 @@ void run_grid(Ctx& c) {
     GCong g; g.e = LE(n);
     for (size_t j = 0; j < n; ++j) g.e.a[j] = t.weighted({35, 65}) == 0 ? 0 : t.range(-3, 3);
     if (g.e.all_zero()) g.e.a[t.range(0, (long) n - 1)] = 1;
+    if (t.chance(12)) { g.e = LE(n); g.e.a[s.V[t.range(0, (long) s.V.size() - 1)]] = 1; g.e.b = -(s.M * t.range(-2, 2) + s.mn + gen_off(t, s.M)); g.m = t.chance(50) ? Z(0) : s.M; cgs.push_back(g); continue; }
     switch (t.weighted({30, 30, 20, 20})) { case 0: g.e.b = t.range(-5, 5); break; case 1: g.e.b = t.range(-300, 300); break; case 2: g.e.b = -(s.mn + gen_off(t, s.M)); break; default: g.e.b = s.M * t.range(-2, 2) + t.range(-3, 3); }
     switch (t.weighted({22, 8, 10, 8, 8, 12, 8, 8, 8, 8})) {
     case 0: g.m = 0; break; case 1: g.m = 1; break; case 2: g.m = 2; break; case 3: g.m = 3; break; case 4: g.m = 7; break;
@@ -522,8 +552,17 @@ void run_grid(Ctx& c) {
   {
     log_spec(c, s);
     Grid d(arg); Constraint_System gcs = s.guard_cs(); Variables_Set vs = s.vs();
-    d.wrap_assign(vs, s.w, s.rep(), s.ovf(), s.has_guard ? &gcs : 0, s.thr, s.indiv);
+    rl::Grid H(L); for (size_t i = 0; i < s.V.size(); ++i) { rl::Vec e(n, rl::Q(0)); e[s.V[i]] = 1; H.add_congruence(e, rl::Q(0), rl::Q(1)); }
+    bool threw = false; std::string what;
+    try { d.wrap_assign(vs, s.w, s.rep(), s.ovf(), s.has_guard ? &gcs : 0, s.thr, s.indiv); }
+    catch (std::invalid_argument& e) { threw = true; what = e.what(); }
+    if (threw) {
+      c.log << "  wrap_assign threw std::invalid_argument: " << what << "\n";
+      if (s.ov == 0 && s.V.size() >= 2 && !L.empty && H.empty && vf::kf("KF-C17-11")) { c.excluded("KF-C17-11"); goto after_wrap; }
+      c.check(dom + ".wrap.throws", false, "wrap_assign threw std::invalid_argument on valid arguments: " + what + "; argument " + L.show());
+    }
     c.check(dom + ".wrap.ok", d.OK(), "wrap_assign: result fails OK()");
+    {
     Congruence_System rc = d.congruences();
     rl::Grid R = grid_from_ppl(d, n);
     c.log << "  result: " << R.show() << "\n";
@@ -538,15 +577,19 @@ void run_grid(Ctx& c) {
         continue;
       }
       if (s.ov == 1) { if (!is_int(v0) || !is_int(gq)) known("KF-C17-8", false, true); continue; }
-      Q vc = v0 - gq * Q(floor_q(v0 / gq + Q(1, 2))); Z fn = gq.get_num();
+      Z fn = gq.get_num();
       bool branch = fn == s.M || (s.ov == 2 && 2 * fn >= s.M);
       if (s.ov == 0 && gq != Q(s.M) && is_int(gq / Q(s.M))) known("KF-C17-9", false, true);
       if (!branch) continue;
-      if (!is_int(vc)) { known("KF-C17-4", true, true); continue; }
-      Z vz = vc.get_num(), first = vz + fn * ceil_q(Q(s.mn - vz) / Q(fn)), count = first > s.mx ? Z(0) : Z(1 + fdiv(s.mx - first, fn));
-      if (count != 1 || (s.sgn && 2 * abs(vz) == fn)) known("KF-C17-7", true, true);
+      rl::Grid Hv(L); Hv.add_congruence(e, rl::Q(0), rl::Q(1)); if (Hv.empty) continue;
+      rl::Q hv0, hgq; rl::value_set(Hv, e, rl::Q(0), hv0, hgq); if (hgq == 0) continue;      // integer values of x: hv0 + hgq Z
+      rl::Q rv0, rgq; bool rnoline = rl::value_set(R, e, rl::Q(0), rv0, rgq);
+      bool rconst = !R.empty && rnoline && rgq == 0;
+      bool a_value = rconst && is_int(rv0) && is_int((rv0 - hv0) / hgq);                       // the constant is an integer value of x in the argument
+      if ((!is_int(gq) || !is_int(v0)) && rconst && !a_value) { known("KF-C17-4", true, true); continue; }
+      Z hz = hv0.get_num(), hf = hgq.get_num(), first = hz + hf * ceil_q(Q(s.mn - hz) / Q(hf)), count = first > s.mx ? Z(0) : Z(1 + fdiv(s.mx - first, hf));
+      if (count != 1 || (s.sgn && a_value && !s.in_range(rv0.get_num()))) known("KF-C17-7", true, true);
     }
-    rl::Grid H(L); for (size_t i = 0; i < s.V.size(); ++i) { rl::Vec e(n, rl::Q(0)); e[s.V[i]] = 1; H.add_congruence(e, rl::Q(0), rl::Q(1)); }
     c.log << "  argument with integer wrapped coordinates: " << H.show() << "\n";
     if (!H.empty && !skip_contains) for (int it = 0; it < 40; ++it) {
       Vec p = H.p;
@@ -573,11 +616,13 @@ void run_grid(Ctx& c) {
     }
     // the documented rule, one wrapped variable, no guard
     if (s.V.size() == 1) {
-      rl::Grid up = grid_rule(L, s, s.V[0]), low = grid_rule(H, s, s.V[0]);
+      rl::Grid up = grid_rule(L, s, s.V[0], true), up2 = grid_rule(H, s, s.V[0], true), low = grid_rule(H, s, s.V[0], false);
       if (!skip_contains) c.check(dom + ".wrap.rule_lower", R.contains(low), [&] { return "result " + R.show() + " does not contain the documented result for the integer part of the argument " + low.show() + "; argument " + L.show(); });
-      if (!skip_upper) c.check(dom + ".wrap.rule_upper", up.contains(R), [&] { return "result " + R.show() + " is not contained in the documented result " + up.show() + "; argument " + L.show(); });
+      if (!skip_upper) c.check(dom + ".wrap.rule_upper", up.contains(R) || up2.contains(R), [&] { return "result " + R.show() + " is not contained in the documented result " + up.show() + " (nor in that for the integer part of the argument, " + up2.show() + "); argument " + L.show(); });
       c.tag("grid rule checked");
     }
+    }
+    after_wrap:
     if (checked > 0) c.nt();
   }
 
